@@ -18,8 +18,9 @@ MANIFEST = dict(
     ref="DESIGN.md section 5, C03",
     technique="Coq proof over a Gallina model + model/implementation correspondence run on the real binary + independent oracle",
     note="Assumed: SHA-1/MD5 are functions (Section variables); bendy's reader as modelled in Model/Bencode.v. Not modelled: symlinks, "
-         "permissions, FIFOs, top-level metainfo fields other than info, md5sum strings that are not 32 characters (C08), piece "
-         "lengths >= 2^32 are treated as unsupported input. Trusted: Coq kernel, extraction, OCaml driver (SHA-1 checked against "
+         "permissions, FIFOs; piece lengths >= 2^32 are treated as unsupported input. The command model loads through the one typed "
+         "loader Summary.from_input (X4: every top-level and info key type-checked, i64 for skipped/buffered integers, nesting <= 2048, "
+         "content size < 2^64); url::Host::parse / Url::parse are Section variables answered per case by the hooks host_parse / magnet_print. Trusted: Coq kernel, extraction, OCaml driver (SHA-1 checked against "
          "hashlib every run), Python oracle.")
 
 MODES = ["content", "base", "default", "stdin", "stdin-content", "stdin-base"]
@@ -221,17 +222,171 @@ def malformed(r, w):
         yield "md5sum is not hexadecimal", {b"info": i}
 
 
+def typed_perturbations(r, w):
+    """X4 - perturbations OUTSIDE the four info fields the verifier reads, each applied to an otherwise consistent
+    (torrent, tree) pair: (tag, torrent override). `imdl torrent verify` loads through Metainfo::from_input, which
+    type-checks every key; the content matches, so the exit status tells whether the loader accepted."""
+    def top(**_):
+        return {b"info": copy.deepcopy(w.info)}
+    raw0 = lib.bencode({b"info": w.info})
+    iraw = lib.bencode(w.info)
+
+    def with_top(k, v):
+        t = top(); t[k] = v
+        return t
+
+    def with_info(k, v):
+        t = top(); t[b"info"][k] = v
+        return t
+
+    B63, B64 = 1 << 63, 1 << 64
+    # --- a fully populated, well-typed metainfo (no host / URL: the oracle can expect success)
+    full = top()
+    full.update({b"announce": b"http://tracker.example/announce", b"announce-list": [[b"http://a/", b"udp://b:1"], [], [b"x"]],
+                 b"comment": "c\u00f6mment".encode(), b"created by": b"somebody", b"creation date": 1600000000, b"encoding": b"UTF-8"})
+    full[b"info"].update({b"private": r.choice([0, 1]), b"source": b"src"})
+    yield "typed: every optional text key present and well typed", full
+    t = copy.deepcopy(full); t[b"nodes"] = [[b"router.example.com", 6881], [b"1.2.3.4", 0], [b"::1", 65535], [b"EXAMPLE.com", 1]]
+    t[b"info"][b"update-url"] = b"https://example.com/update?x=1"
+    yield "typed: well-typed nodes and update-url", t
+    # --- every string key ill-typed
+    for k in (b"announce", b"comment", b"created by", b"encoding"):
+        for v, what in ((5, "integer"), ([b"x"], "list"), ({b"a": b"b"}, "dict"), (-1, "negative integer"), (B63, "2^63"), (B64, "2^64"),
+                        (b"\xff\xfe", "not UTF-8"), (b"\xed\xa0\x80", "encoded surrogate")):
+            yield "typed: `%s` is %s" % (k.decode(), what), with_top(k, v)
+        yield "typed: `%s` is empty text (fine)" % k.decode(), with_top(k, b"")
+    for v, what in ((5, "integer"), ([b"x"], "list"), ({b"a": b"b"}, "dict"), (b"\xc0\xaf", "overlong UTF-8"), (B64, "2^64")):
+        yield "typed: info `source` is %s" % what, with_info(b"source", v)
+    # --- announce-list
+    for v, what in (([b"http://a/"], "a list of strings"), (b"http://a/", "a string"), ([[1]], "a list of lists of integers"),
+                    ([[b"\xff"]], "not UTF-8 inside"), ([[[b"a"]]], "nested one level too deep"), ({b"a": [[b"x"]]}, "a dict"), (7, "an integer"),
+                    ([[b"a"], b"b"], "mixed")):
+        yield "typed: `announce-list` is %s" % what, with_top(b"announce-list", v)
+    for v, what in (([], "empty"), ([[]], "one empty tier"), ([[b""]], "an empty URL text")):
+        yield "typed: `announce-list` %s (fine)" % what, with_top(b"announce-list", v)
+    # --- creation date
+    for v in (0, 1, B63 - 1, B63, B64 - 1):
+        yield "typed: `creation date` %d (fine)" % v, with_top(b"creation date", v)
+    for v, what in ((-1, "-1"), (B64, "2^64"), (-B63, "-2^63"), (b"1600000000", "a string"), ([1], "a list")):
+        yield "typed: `creation date` is %s" % what, with_top(b"creation date", v)
+    # --- private
+    for v in (0, 1):
+        yield "typed: `private` %d (fine)" % v, with_info(b"private", v)
+    for v, what in ((2, "2"), (-1, "-1"), (b"1", 'the string "1"'), ([1], "a list"), (B63, "2^63"), (B64, "2^64")):
+        yield "typed: `private` is %s" % what, with_info(b"private", v)
+    yield "typed: `private` 7 at the top level (an unknown key there)", with_top(b"private", 7)
+    # --- nodes
+    for v, what in (([[b"1.2.3.4", 65536]], "port 65536"), ([[b"1.2.3.4", -1]], "port -1"), ([[b"1.2.3.4"]], "arity 1"),
+                    ([[b"1.2.3.4", 80, 1]], "arity 3"), ([[b"a b", 80]], "host with a space"), ([[b"", 80]], "empty host"),
+                    ([b"x:1"], "a list of strings"), ([{b"host": b"h", b"port": 1}], "a list of dicts"), (b"h:1", "a string"),
+                    ([[80, b"h"]], "port and host swapped"), ([[b"[::1]", 80]], "bracketed IPv6"), ([[b"\xff", 80]], "host not UTF-8"),
+                    ([[b"h", B64]], "port 2^64"), ([[b"h", b"80"]], "port a string"), ([[b"exa mple.com", 1], [b"ok", 1]], "first host invalid"),
+                    ([[b"ok", 1], [b"%zz", 1]], "second host odd"), ([[b"xn--", 1]], "host xn--"), ([[b"a..b", 1]], "host a..b")):
+        yield "typed: `nodes` %s" % what, with_top(b"nodes", v)
+    for v, what in (([], "empty"), ([[b"::1", 80]], "bare IPv6"), ([[b"EXAMPLE.com", 80]], "upper-case host"), ([[b"1.2.3.4", 0]], "port 0"),
+                    ([[b"0x7f.1", 1]], "hex IPv4 spelling"), ([["b\u00fccher.example".encode(), 1]], "IDN host")):
+        yield "typed: `nodes` %s (the url crate decides)" % what, with_top(b"nodes", v)
+    yield "typed: `nodes` 7 inside info (an unknown key there)", with_info(b"nodes", 7)
+    # --- update-url
+    for v, what in ((b"x", "no scheme"), (b"", "empty"), (b"http://", "no host"), (5, "an integer"), ([b"http://a/"], "a list"),
+                    (b"\xff", "not UTF-8"), (b"http://[::1", "unclosed bracket"), (b"//example.com/", "scheme-relative"),
+                    (b"http://exa mple.com/", "space in host"), (b"http://a:99999/", "port 99999")):
+        yield "typed: `update-url` %s" % what, with_info(b"update-url", v)
+    for v, what in ((b"http://x/", "http"), (b"mailto:a", "mailto"), (b"a:b", "a:b"), (b"HTTP://EXAMPLE.com", "upper case"),
+                    (b"http://example.com", "no trailing slash")):
+        yield "typed: `update-url` %s (the url crate decides)" % what, with_info(b"update-url", v)
+    yield "typed: `update-url` 7 at the top level (an unknown key there)", with_top(b"update-url", 7)
+    # --- integers outside i64 where serde skips or buffers
+    for v, what in ((B63 - 1, "2^63-1 (fine)"), (-B63, "-2^63 (fine)"), (B63, "2^63"), (-B63 - 1, "-2^63-1"), (B64, "2^64"), ([[B63]], "2^63 nested in lists"),
+                    ({b"k": B63}, "2^63 nested in a dict")):
+        yield "typed: unknown top-level key holds %s" % what, with_top(b"zzz", v)
+        yield "typed: unknown info key holds %s" % what, with_info(b"zzz", v)
+    yield "typed: unknown top-level key before `info`", with_top(b"a unknown", [1, b"x", {b"y": []}])
+    yield "typed: unknown key with an empty name", with_top(b"", 7)
+    # --- keys that are not UTF-8
+    yield "typed: top-level key not UTF-8", with_top(b"\xff", 1)
+    yield "typed: info key not UTF-8", with_info(b"\xff", 1)
+    yield "typed: top-level key is an encoded surrogate", with_top(b"\xed\xa0\x80", 1)
+    # --- nesting in an unknown key
+    for n in (2046, 2047, 2048, 2049):
+        nest = b"l" * n + b"e" * n
+        yield "typed: top-level unknown key nested %d deep (lists)" % n, {"raw": raw0[:-1] + b"3:zzz" + nest + b"e"}
+        yield "typed: info unknown key nested %d deep (lists)" % n, {"raw": b"d4:info" + iraw[:-1] + b"3:zzz" + nest + b"ee"}
+    for n in (2047, 2048):
+        yield "typed: top-level unknown key nested %d deep (dicts, integer inside)" % n, \
+            {"raw": raw0[:-1] + b"3:zzz" + b"d1:a" * n + b"i1e" + b"e" * n + b"e"}
+        yield "typed: top-level unknown key nested %d deep (lists, string inside)" % n, \
+            {"raw": raw0[:-1] + b"3:zzz" + b"l" * n + b"1:x" + b"e" * n + b"e"}
+    # --- framing
+    yield "typed: trailing bytes after a fully typed metainfo", {"raw": lib.bencode(full) + b"i1e"}
+    yield "typed: duplicate top-level key", {"raw": raw0[:-1] + b"3:zzzi1e3:zzzi1e" + b"e"}
+    yield "typed: duplicate `info`", {"raw": b"d4:info" + iraw + b"4:info" + iraw + b"e"}
+    yield "typed: unsorted top-level keys", {"raw": raw0[:-1] + b"3:zzzi1e3:yyyi1e" + b"e"}
+    yield "typed: `comment` after `info` out of order", {"raw": raw0[:-1] + b"7:comment1:x" + b"e"}
+    yield "typed: top level is a list holding the metainfo", {"raw": b"l" + raw0 + b"e"}
+    yield "typed: top level is the fields in declaration order", {"raw": lib.bencode([b"http://a/", [[b"x"]], b"c", b"cb", 1, b"e", w.info, []])}
+    # --- the file list
+    if w.multi:
+        def files(fn):
+            t = top(); fn(t[b"info"][b"files"], t[b"info"])
+            return t
+        yield "typed: unknown key inside a file entry", files(lambda fl, i: fl[0].update({b"zzz": [1, {b"a": b"b"}]}))
+        yield "typed: file entry key not UTF-8 (buffered: fine)", files(lambda fl, i: fl[0].update({b"\xff": 1}))
+        yield "typed: integer 2^63 under an unknown key of a file entry", files(lambda fl, i: fl[0].update({b"zzz": B63}))
+        def seq(fl, i, md5=False, extra=None, short=False):
+            for k, e in enumerate(fl):
+                x = [e[b"length"]] if short else [e[b"length"], e[b"path"]]
+                if md5 and b"md5sum" in e:
+                    x.append(e[b"md5sum"])
+                if extra is not None:
+                    x.append(extra)
+                fl[k] = x
+        yield "typed: file entries in serde's sequence form [length, path]", files(lambda fl, i: seq(fl, i))
+        yield "typed: file entries in sequence form with md5sum", files(lambda fl, i: seq(fl, i, md5=True))
+        yield "typed: file entry sequence with a wrong third element", files(lambda fl, i: seq(fl, i, extra=b"0" * 31))
+        yield "typed: file entry sequence of one element", files(lambda fl, i: seq(fl, i, short=True))
+        def four(fl, i):
+            fl[0] = [fl[0][b"length"], fl[0][b"path"], vfy.md5hex(w.files[0][1]), 1]
+        yield "typed: file entry sequence of four elements", files(four)
+        for m, what in ((b"0" * 31, "31 digits"), (b"0" * 33, "33 digits"), (b"", "empty"), (b"g" * 32, "not hexadecimal"), (5, "an integer"),
+                        (b"\xc3\xa9" * 16, "32 bytes of non-ASCII")):
+            yield "typed: file md5sum %s" % what, files(lambda fl, i, m=m: fl[-1].update({b"md5sum": m}))
+        yield "typed: file md5sum in upper case (fine)", files(lambda fl, i: fl[0].update({b"md5sum": vfy.md5hex(w.files[0][1]).upper()}))
+        # listed lengths whose sum is 2^64 - 1 (loads, cannot match), 2^64, more
+        for tot, what in ((B64 - 1, "2^64-1"), (B64, "2^64"), (B64 + B63 - 2, "well past 2^64")):
+            def big(fl, i, tot=tot):
+                rest = tot - sum(e[b"length"] for e in fl)
+                k = 0
+                while rest > 0:
+                    n = min(rest, B63 - 1)
+                    fl.append({b"length": n, b"path": [b"big%d" % k]}); rest -= n; k += 1
+            yield "typed: listed lengths sum to %s" % what, files(big)
+        yield "typed: a listed length of 2^63", files(lambda fl, i: fl.append({b"length": B63, b"path": [b"big"]}))
+        yield "typed: `length` 2^63 next to a good files list", files(lambda fl, i: i.update({b"length": B63}))
+        yield "typed: `length` a string next to a good files list (falls through)", files(lambda fl, i: i.update({b"length": b"5"}))
+        yield "typed: info md5sum malformed next to a good files list (ignored)", files(lambda fl, i: i.update({b"md5sum": b"zz"}))
+    else:
+        for m, what in ((b"0" * 31, "31 digits"), (b"0" * 33, "33 digits"), (b"", "empty"), (b"g" * 32, "not hexadecimal"), (5, "an integer")):
+            yield "typed: md5sum %s" % what, with_info(b"md5sum", m)
+        yield "typed: md5sum in upper case (fine)", with_info(b"md5sum", vfy.md5hex(w.files[0][1]).upper())
+        yield "typed: `length` 2^63", with_info(b"length", B63)
+        yield "typed: `files` 7 next to a good length (ignored)", with_info(b"files", 7)
+    yield "typed: `piece length` 2^63 (read as u64, then unsupported)", with_info(b"piece length", B63)
+    yield "typed: `piece length` 2^64", with_info(b"piece length", B64)
+
+
 def generate(ctx):
     r = ctx.rng
     cases = [witness_zero_piece_length()]
     from props import c13                      # two hostile listings (the C13 witnesses) also run here
     for k in (0, 4):
         cases.append(c13.hostile_case(r, c13.kinds(b"root")[k], 0, "content"))
-    want = ctx.n(420, 9000)
+    want = ctx.n(800, 12000)
+    seen_typed = {}
     # every perturbation at least once per (single|multi), modes cycling
     k = 0
     while len(cases) < want:
-        w = vfy.random_world(r, multi=(r.random() < 0.67))
+        w = vfy.random_world(r, multi=(k % 2 == 1) if k < 2 else (r.random() < 0.67))
         base_mode = MODES[k % len(MODES)]
         k += 1
         for j, (tag, x, where_ok, tor) in enumerate(perturbations(r, w, base_mode)):
@@ -242,6 +397,16 @@ def generate(ctx):
             mode = r.choice(MODES)
             tree, arg, inp = vfy.place(w, mode, r, True)
             cases.append(vfy.mk_case("malformed: " + tag, w, mode, tree, arg, inp, tor))
+        # X4: the metainfo outside the verified fields - every class with the first single-file and the first
+        # multi-file world, a random third of them afterwards
+        typed = list(typed_perturbations(r, w))
+        first = not seen_typed.get(w.multi)
+        seen_typed[w.multi] = True
+        for tag, tor in typed:
+            if first or r.random() < 0.3:
+                mode = r.choice(MODES)
+                tree, arg, inp = vfy.place(w, mode, r, True)
+                cases.append(vfy.mk_case(tag, w, mode, tree, arg, inp, tor))
     cases = cases[:max(want, 1)]
     for c in cases:
         c["seed"] = r.randrange(1 << 30)
@@ -280,8 +445,11 @@ def run(ctx, pid="C03"):
         recs = lib.pmap(lambda c: vfy.run_case(ctx, c, tmp), cases)
     finally:
         shutil.rmtree(tmp, ignore_errors=True)
-    models = ctx.model([rec["model_line"] for rec in recs])
-    for rec, m in zip(recs, models):
+    lines = vfy.model_lines(ctx, recs)
+    replies = ctx.model(lines + [rec["vload_line"] for rec in recs])
+    models, loads = replies[:len(lines)], replies[len(lines):]
+    for rec, m, l in zip(recs, models, loads):
+        rec["model_loader"] = vfy.loader_verdict(l)
         judge(ctx, rec, m)
     return finish(ctx)
 
@@ -308,6 +476,24 @@ def judge(ctx, rec, m):
         ctx.violation("oracle-failure", "%s: verify exited 0 although %s" % (c["tag"], orc["why"]), d()); bad = True
     if orc["wellformed"] and orc["expect"] is not None and vfy.crashed(rc):
         ctx.violation("oracle-failure", "%s: verify neither succeeded nor failed cleanly on a well-formed torrent (exit %d)" % (c["tag"], rc), d()); bad = True
+    # X4: the loader's verdict itself - the binary prints its second step line exactly when Metainfo::from_input accepted
+    ml = rec.get("model_loader")
+    if ml is None:
+        ctx.violation("model-impl-disagreement", "the model's loader gave no verdict on %s" % c["tag"], d())
+    else:
+        ctx.count("loader: projection %s, typed %s, binary %s" % tuple("accepts" if x else "refuses" for x in (ml[0], ml[1], rec["began"])))
+        if ml[1] and not ml[0]:
+            ctx.violation("model-impl-disagreement", "%s: the typed loader accepts what the projection refuses (contradicts typed_rejects_more)" % c["tag"], d())
+        if rec["began"] and orc.get("typed"):
+            ctx.violation("oracle-failure", "%s: verify loaded the torrent and began verifying although %s" % (c["tag"], orc["why"]), d()); bad = True
+        elif ml[1] != rec["began"] and not bad:
+            ctx.cov["disagreements_checked"] += 1
+            ctx.violation("model-impl-disagreement",
+                          "%s: the model's typed loader %s the torrent, `imdl torrent verify` %s (exit %d); the reference reader: %s"
+                          % (c["tag"], "accepts" if ml[1] else "refuses", "began verifying" if rec["began"] else "did not get past loading", rc,
+                             orc["expect"] or orc["why"]), d()); bad = True
+    if vfy.crashed(rc) and not bad:
+        ctx.violation("oracle-failure", "%s: verify ended with exit status %d - neither success nor a reported failure" % (c["tag"], rc), d()); bad = True
     if not m.startswith("OK ") or m == "OK fuel":
         ctx.violation("model-impl-disagreement", "the model did not produce a verdict (%s) on %s" % (m, c["tag"]), d())
     elif (m == "OK success") != (rc == 0) and not bad:
@@ -321,13 +507,18 @@ def finish(ctx):
     ctx.assumptions += [
         "SHA-1 and MD5 are functions of the bytes (Section variables H, MD5); the driver's instances are compared with hashlib each run",
         "a read on a regular file returns 0 only at end of file or for an empty window, otherwise between 1 and min(window, rest) bytes (legal)",
-        "no symlinks, FIFOs or permission failures among the listed paths; piece lengths >= 2^32 and md5sum strings that are not 32 "
-        "characters are outside the supported input (rejected / C08)",
+        "no symlinks, FIFOs or permission failures among the listed paths; piece lengths >= 2^32 are outside the supported input (rejected)",
+        "host_disp / url_norm (Section variables of the typed loader) are url::Host::parse and Url::parse: instantiated per case with the answers "
+        "of the hooks host_parse and magnet_print for the node hosts and the update-url of that torrent",
     ]
     return ctx.finish(
         rule="a consistent (torrent, tree) pair from the seeded generator (1-4 files, sizes around the piece length incl. 0 and files "
              "larger than the BufReader, md5sum on/off, four content-root rules) with exactly one thing perturbed (md5sum, piece list, "
-             "piece length, tree, listing, name), plus a malformed stream; the zero-piece-length witness runs first; a case is "
+             "piece length, tree, listing, name), plus a malformed stream, plus (X4) a stream of metainfo perturbed OUTSIDE the verified "
+             "fields on a consistent pair (every modelled key ill-typed, nodes / update-url / announce-list shapes, private and creation "
+             "date extremes, integers around 2^63 / 2^64 under skipped and buffered keys, content size around 2^64, md5sum shapes, "
+             "duplicate / unsorted keys, nesting 2046..2049, trailing bytes, unknown keys at every level, serde's sequence form of file "
+             "entries); the zero-piece-length witness runs first; a case is "
              "distinct/non-trivial by (perturbation, root rule, oracle verdict, exit status, model verdict)",
         trusted_base=["Coq 8.16.1 kernel (coqc)", "extraction with ExtrOcamlBasic + runner/driver.d/verify.ml (SHA-1 in OCaml, Digest for MD5)",
                       "Model/Bencode.v as the reader", "Python reference verifier in tools/props/vfy.py (hashlib, os.path, lib.bdecode_strict)"],
